@@ -164,7 +164,7 @@ def run(rep, tier, seed, tr_errors):
     thm_ok2, names2, out2 = lib.check_props_file(rep, "Props/C02_Tlm.v", expect=["C02_Tlm_numeric_eq_symbolic", "C02_Tlm_documented_equation", "C02_Tlm_refused_iff"])
     thm_ok = thm_ok and thm_ok2
     # numeric sweep (support; and the violation search for broken classes)
-    n_quick, n_thorough = 25, 400
+    n_quick, n_thorough = 25, 100     # thorough: 100 points per class (sympy.N at 30 digits costs ~0.2 s per point)
     n = n_quick if tier == "quick" else n_thorough
     kf = lib.load_known_findings()
     sweep = {}
@@ -187,7 +187,7 @@ def run(rep, tier, seed, tr_errors):
         elif sym in broken:
             rep.violation("lemma_%s" % sym, {"kind": "broken-obligation", "obligation": "lemma:%s_impl_eq_eqn" % sym,
                                              "detail": broken[sym], "numeric_points_tried": done}, no_input=True)
-    cfgs, ncmp, tfail = tlm_sweep(rng, 2 if tier == "quick" else 20)
+    cfgs, ncmp, tfail = tlm_sweep(rng, 2 if tier == "quick" else 6)
     sweep["Tlm"] = {"configurations": cfgs, "compared": ncmp, "failed": tfail is not None}
     rep.evaluations += ncmp
     rep.oblige("tlm-numeric-vs-symbolic on the implementation (27 admissible configurations + sampled inadmissible ones; the search behind C02_Tlm_numeric_eq_symbolic)", tfail is None,
